@@ -22,6 +22,9 @@ mod timestamp;
 mod oracle;
 #[cfg(feature = "serde")]
 mod serialize;
+#[cfg(feature = "verif-hooks")]
+#[doc(hidden)]
+pub mod verif_hooks;
 
 pub use crate::date::{Date, Month, WeekDay};
 pub use crate::error::Error;
